@@ -151,6 +151,15 @@ CHECKS["C05"] = dict(
     engine="tlc+replay",
 )
 
+CHECKS["C20"] = dict(
+    category="translation_validation",
+    text="Two builds of the same probe harness - against the crate as shipped (specification.rs) and against a scratch copy whose specification.rs is the macro invocation (specification_orig.rs) expanded by the in-tree generator - run the same TLC-generated corpus (C04 case space with all deviations in both modes, the literal catalogue, multi-fault documents, laid-out documents of every element); their transcripts (Debug tree, Display of the error and of every diagnostic, written text, three reload cycles) are compared case by case, and the freshly generated variant is additionally validated against Parser.tla (Trace_Parser), so both variants are bound to the same specification.",
+    design_ref="DESIGN.md §6 C20, §7",
+    note="Differential comparison bounded by the corpus; equality of two programs' outputs is not a statement of a single state machine (DESIGN.md 7), the TLA+ specification contributes the corpus and the conformance of both variants. The scratch build (about 40 s) is removed afterwards.",
+    technique="differential execution of the shipped and the freshly expanded code on a TLC-generated corpus, both validated against Parser.tla",
+    engine="tlc+replay",
+)
+
 PENDING = "check not built yet in this round; planned per DESIGN.md §6 (no claim made until the TLA+ module and its binding exist)"
 NOT_APPLICABLE = {}
 
